@@ -154,3 +154,27 @@ def gen_oflags(rng, safe_fifo=True):
         # openat2 is strict: with O_PATH only O_DIRECTORY, O_NOFOLLOW and O_CLOEXEC are accepted
         fl &= O["PATH"] | O["DIRECTORY"] | O["NOFOLLOW"] | O["CLOEXEC"]
     return fl
+
+
+def link_budget_cases(repo="/repo"):
+    """Deterministic boundary cases for the link budgets: chains of exactly k links for k around the kernel's budget (40)
+    and around the library's own constant (read from the source), walked from the top link, bare and with more components."""
+    import re
+    try:
+        mx = int(re.search(r"const MAX_SYMLINK_TRAVERSALS: usize = (\d+);", open(repo + "/src/resolvers.rs").read()).group(1))
+    except Exception:
+        mx = 128
+    lens = sorted({38, 39, 40, 41, 42, mx - 2, mx - 1, mx, mx + 1})
+    out = []
+    for n in lens:
+        if n < 1:
+            continue
+        tree = [["dir", H("root"), 0o755], ["dir", H("outside"), 0o755], ["dir", H("root/d"), 0o755], ["file", H("root/d/f"), H("data"), 0o644]]
+        prev = "d"
+        for i in range(n):
+            tree.append(["symlink", H("root/ch%d" % i), H(prev)])
+            prev = "ch%d" % i
+        top = "ch%d" % (n - 1)
+        for p in (top, top + "/f", top + "/../d/f", top + "/."):
+            out.append((tree, p, n))
+    return out
